@@ -128,6 +128,15 @@ CHECKS["C18"] = dict(
     note="Re-validation without transforms context; dyadic magnitudes; option dictionaries are not mutation-tested.",
     design="4 (C18)")
 
+CHECKS["C17"] = dict(
+    text="SamplerLayout.tla: index map from an abstract point sequence to Sample[r][p][v]; TLC checks zeros outside handled variables, "
+         "point integrity, shared-identical and distinct-points for every R,P,V<=3 x mask x shared, and finds the counterexample for the "
+         "as-is transposed layout; every scenario calls generate_samples() twice on real samplers of all six methods (single and two "
+         "samplers); QMC points are re-created from an identically seeded engine; Trace_C17 checks shape, zeros, range, shared/per-"
+         "realization, point integrity and Latin-hypercube stratification.",
+    note="Distributional quality is not examined; reference points used only when they demonstrably are the ones drawn.",
+    design="4 (C17)")
+
 NOT_APPLICABLE = {}
 
 def main():
